@@ -44,6 +44,7 @@ type World struct {
 	KeyHistory map[string][]*KeyMaterial
 	free      bool
 	Deadlock  string
+	listeners map[string]*Listener
 }
 
 type lockedBuf struct {
@@ -97,6 +98,9 @@ func Run(r *core.Run, opt Options, body func(w *World)) (w *World) {
 				msg := fmt.Sprint(p)
 				if strings.Contains(msg, "deadlock: all goroutines in bubble are blocked") {
 					w.Deadlock = msg
+					for _, l := range core.RelicStacks() {
+						r.Logf("blocked: %s", l)
+					}
 				} else if strings.Contains(msg, "blocked goroutines remain") {
 					// leftover goroutines of a finished run; harmless
 				} else {
